@@ -35,13 +35,18 @@ def parse_example(text, lineno=1):
     return ex
 
 
-def run_example(ex, verbose=0):
-    """runs a DocTest; returns dict(T, logged, ns, summary, error)"""
+def run_example(ex, verbose=0, preset=None):
+    """runs a DocTest; returns dict(T, logged, ns, summary, error); `preset`: the doctest belongs to a module with these globals"""
     ns = NS()
     ns, T = gd.make_namespace(ns)
     ns['__file__'] = '<ref>'
     injected = set(ns)
     ex.global_namespace = ns
+    if preset:
+        import types
+        m = types.ModuleType('xdv_ctx_mod')
+        m.__dict__.update(preset)
+        ex.module = m
     err = None
     summary = None
     with warnings.catch_warnings():
@@ -145,7 +150,7 @@ def check_runs(prog, text, line_of, stmt_first, schedule):
             ex = parse_example(text)
             if ex is None:
                 return ['parse_docstr_examples did not give exactly one example'], None, None
-        run = run_example(ex, verbose)
+        run = run_example(ex, verbose, getattr(prog, 'preset', None))
         w = expectations(prog, text, line_of, stmt_first, ex, run)
         if w:
             why.append('run %d (verbose=%d, %s DocTest object): %s' % (n + 1, verbose, 'fresh' if fresh or n == 0 else 'the SAME', '; '.join(w)))
